@@ -940,7 +940,12 @@ ABT_bool ABTI_sched_has_to_stop(ABTI_sched *p_sched)
         } else if (p_sched->used == ABTI_SCHED_IN_POOL) {
             /* Let's finish it anyway.
              * TODO: think about the condition. */
-            return ABT_TRUE;
+            /* Check again as above: ABTI_sched_has_unit() reads the emptiness
+             * of a pool and then its number of blocked ULTs; a blocked ULT
+             * that is resumed in between (pushed, then uncounted) is seen by
+             * neither read. */
+            if (!ABTI_sched_has_unit(p_sched))
+                return ABT_TRUE;
         }
     }
     return ABT_FALSE;
